@@ -107,6 +107,119 @@ def undo_renames(modules, log=None):
     return True
 
 
+def undo_moves(modules, log=None):
+    """A top-level function or class of the reference layout that is gone from its module while exactly one other module of the package
+    (possibly a new one) defines a top-level function / class of that name - which is not an entity of the reference layout there - was
+    moved: the definition is put back into its reference module in the in-memory tree, together with imports for what it uses from the
+    module it was found in; imports of the name are re-pointed.  Anything ambiguous is left alone (the anchor lookup then fails as an
+    analysis error, never as a verdict)."""
+    _load_pinned()
+    ref_top = {}
+    for fq in _PINNED:
+        mod, _, qual = fq.partition(':')
+        ref_top.setdefault(mod, set()).add(qual.split('.')[0])
+
+    def absolute(m, level, module):
+        if level == 0:
+            return module
+        base = m.name.split('.')
+        if not getattr(m, 'is_pkg', False):
+            base = base[:-1]
+        if level > 1:
+            base = base[: len(base) - (level - 1)]
+        return '.'.join(base + ([module] if module else []))
+
+    def top_bound(tree):
+        out = set()
+        for st in tree.body:
+            if isinstance(st, (ast.FunctionDef, ast.AsyncFunctionDef, ast.ClassDef)):
+                out.add(st.name)
+            elif isinstance(st, ast.Import):
+                out |= {a.asname or a.name.split('.')[0] for a in st.names}
+            elif isinstance(st, ast.ImportFrom):
+                out |= {a.asname or a.name for a in st.names}
+            elif isinstance(st, (ast.Assign, ast.AnnAssign, ast.AugAssign)):
+                for t in (st.targets if isinstance(st, ast.Assign) else [st.target]):
+                    out |= {n.id for n in ast.walk(t) if isinstance(n, ast.Name)}
+        return out
+    any_move = False
+    for modA in sorted(ref_top):
+        if modA not in modules:
+            continue
+        A = modules[modA]
+        present = {st.name for st in A.tree.body if isinstance(st, (ast.FunctionDef, ast.ClassDef))}
+        for name in sorted(ref_top[modA] - present):
+            cands = [(mB, st) for mB, m in modules.items() if mB != modA for st in m.tree.body
+                     if isinstance(st, (ast.FunctionDef, ast.ClassDef)) and st.name == name and name not in ref_top.get(mB, ())]
+            if len(cands) != 1:
+                continue
+            mB, node = cands[0]
+            B = modules[mB]
+            B.tree.body.remove(node)
+            # what the moved definition uses from the module it was found in
+            have = top_bound(A.tree) | {name}
+            used = {n.id for n in ast.walk(node) if isinstance(n, ast.Name) and isinstance(n.ctx, ast.Load)}
+            extra = []
+            for st in B.tree.body:
+                if isinstance(st, ast.Import):
+                    keep = [a for a in st.names if (a.asname or a.name.split('.')[0]) in used - have]
+                    if keep:
+                        extra.append(ast.Import(names=keep))
+                        have |= {a.asname or a.name.split('.')[0] for a in keep}
+                elif isinstance(st, ast.ImportFrom):
+                    keep = [a for a in st.names if (a.asname or a.name) in used - have]
+                    if keep:
+                        extra.append(ast.ImportFrom(module=absolute(B, st.level, st.module), names=keep, level=0))
+                        have |= {a.asname or a.name for a in keep}
+            own_B = set()
+            for st in B.tree.body:
+                if isinstance(st, (ast.FunctionDef, ast.ClassDef)):
+                    own_B.add(st.name)
+                elif isinstance(st, (ast.Assign, ast.AnnAssign)):
+                    for t in (st.targets if isinstance(st, ast.Assign) else [st.target]):
+                        own_B |= {n.id for n in ast.walk(t) if isinstance(n, ast.Name)}
+            need_B = sorted((used - have) & own_B)
+            if need_B:
+                extra.append(ast.ImportFrom(module=mB, names=[ast.alias(name=n_, asname=None) for n_ in need_B], level=0))
+            # the reference module no longer imports the name; the other module imports it if it still uses it
+            for st in list(A.tree.body):
+                if isinstance(st, ast.ImportFrom):
+                    st.names = [a for a in st.names if not ((a.asname or a.name) == name)]
+                    if not st.names:
+                        A.tree.body.remove(st)
+            pos = 0
+            for i_, st in enumerate(A.tree.body):
+                if isinstance(st, (ast.Import, ast.ImportFrom)) or (i_ == 0 and isinstance(st, ast.Expr) and isinstance(st.value, ast.Constant)):
+                    pos = i_ + 1
+            for x in extra:
+                ast.fix_missing_locations(ast.copy_location(x, node))
+            A.tree.body[pos:pos] = extra
+            node._found_in = getattr(B, 'relpath', None)
+            for sub in ast.walk(node):
+                if isinstance(sub, (ast.FunctionDef, ast.AsyncFunctionDef, ast.ClassDef, ast.Lambda)):
+                    sub._found_in = node._found_in
+            A.tree.body.append(node)
+            if any(isinstance(n, ast.Name) and n.id == name for n in ast.walk(B.tree)):
+                imp = ast.ImportFrom(module=modA, names=[ast.alias(name=name, asname=None)], level=0)
+                B.tree.body.insert(0, ast.fix_missing_locations(ast.copy_location(imp, node)))
+            # every other import of the name from the module it was found in now points at the reference module
+            for mC, C in modules.items():
+                if mC in (modA, mB):
+                    continue
+                for st in list(C.tree.body):
+                    if isinstance(st, ast.ImportFrom) and absolute(C, st.level, st.module) == mB and any(a.name == name for a in st.names):
+                        moved_al = [a for a in st.names if a.name == name]
+                        st.names = [a for a in st.names if a.name != name]
+                        imp = ast.ImportFrom(module=modA, names=moved_al, level=0)
+                        C.tree.body.insert(C.tree.body.index(st), ast.fix_missing_locations(ast.copy_location(imp, st)))
+                        if not st.names:
+                            C.tree.body.remove(st)
+            any_move = True
+            if log is not None:
+                log.append(f'{mB}:{name} taken for {modA}:{name} of the reference layout (moved between modules)')
+    return any_move
+
+
 LOOPS = (ast.For, ast.While, ast.AsyncFor)
 DEFS = (ast.FunctionDef, ast.AsyncFunctionDef, ast.ClassDef)
 
